@@ -24,7 +24,7 @@ INFO = {
 def decode_jobs(tier, group="rs_decode_core"):
     js = []
     if tier == "quick":
-        cfgs = [(2, 4, 2, 4), (2, 4, 3, 6), (2, 4, 1, 3), (2, 8, 2, 4), (2, 8, 3, 5), (1, 8, 2, 4)]
+        cfgs = [(2, 4, 2, 4), (2, 4, 3, 6), (2, 4, 1, 3), (2, 8, 2, 4), (2, 8, 1, 3), (1, 8, 2, 3)]
     else:
         cfgs = [(2, 4, k, n) for n in range(2, 9) for k in range(1, n) if k <= 4] + [(2, 8, k, n) for n in range(2, 7) for k in range(1, n) if k <= 3] + \
                [(1, 8, k, n) for n in range(2, 7) for k in range(1, n) if k <= 3]
@@ -38,7 +38,7 @@ def decode_jobs(tier, group="rs_decode_core"):
                           repo_sources=[M] if c == 1 else GF2M, tu_included=[LEG] if c == 1 else [],
                           defines={"OFV_CODEC": c, "OFV_M": m, "OFV_K": k, "OFV_N": n, "OFV_LEN": 3, "OFV_MASK": mask},
                           replace_calls=[("of_addmul1", "stub_addmul1")] if c == 1 else RC2, wrap_native=False,
-                          unwind=300, object_bits=12, timeout=1500, mem_gb=8, status="bounded",
+                          unwind=300, object_bits=12, timeout=1500, mem_gb=8, status="bounded", solver="z3" if (m == 8 and c == 2) else ("cadical" if c == 1 else None),
                           bound="one run per (field, k, n, k-subset): every subset of the listed (k,n) pairs; all source data symbolic, length 3"))
     return js
 
